@@ -210,19 +210,21 @@ def validate_file(trace_file, wd, label, cfg="CollectionTrace.cfg", module="Coll
     return {"states": total_states, "traces": n_traces, "failures": failures}
 
 
-def drive_and_validate(group, workloads, mode, wd, label, cfg="CollectionTrace.cfg"):
+def drive_and_validate(group, workloads, mode, wd, label, cfg="CollectionTrace.cfg", driver="drive_collection",
+                       module="CollectionTrace"):
     wpath = os.path.join(wd, f"{label}-w.json")
     tpath = os.path.join(wd, f"{label}-t.ndjson")
     spath = os.path.join(wd, f"{label}-s.json")
     with open(wpath, "w") as f:
         json.dump(workloads, f)
-    rc, text = vlib.run_bin("drive_collection", [wpath, tpath, spath, mode], timeout=2400)
+    args = [wpath, tpath, spath] + ([mode] if driver == "drive_collection" else [])
+    rc, text = vlib.run_bin(driver, args, timeout=2400)
     if rc != 0:
         print(text[-3000:])
-        raise vlib.ToolError("drive_collection failed (panic in the harness or in the code under test)")
+        raise vlib.ToolError(f"{driver} failed (panic in the harness or in the code under test)")
     with open(spath) as f:
         stats = json.load(f)
-    res = validate_file(tpath, wd, label, cfg=cfg)
+    res = validate_file(tpath, wd, label, cfg=cfg, module=module)
     stats.update(states=res["states"], failures=res["failures"], group=group)
     sample = None
     with open(tpath) as f:
